@@ -50,6 +50,7 @@ class Oblig:
     goal: z3.BoolRef
     expect: str = "unsat"          # 'unsat': goal must be valid under hyps; 'sat': cover (hyps must be satisfiable)
     meta: dict = field(default_factory=dict)
+    group: str | None = None       # obligations of one group share their hypotheses: discharged as one conjunction first
 
 
 class Path:
@@ -78,8 +79,18 @@ class Path:
         return p
 
     def assume(self, c):
-        if not z3.is_true(c):
-            self.pc.append(c)
+        if z3.is_true(c):
+            return
+        self.pc.append(c)
+        # an equation between sequences: counting is a function of the sequence, expanded structurally on both
+        # sides for every reference term of the query (count_append etc.; the solver only has congruence for cnt)
+        if z3.is_eq(c) and c.arg(0).sort().eq(RSeq):
+            a, b = c.arg(0), c.arg(1)
+            if any(T._is_concat(t) or T._is_unit(t) or T._is_empty(t) or T._is_ite(t) for t in (a, b)):
+                parts = [t for t in ([a] + T._flat(a) + [b] + T._flat(b)) if not (T._is_unit(t) or T._is_empty(t) or T._is_concat(t))]
+                units = [t.arg(0) for t in (T._flat(a) + T._flat(b)) if T._is_unit(t)]
+                self.schemas.append(Schema("cnt-of-equal-sequences", (Ref,), lambda y, a=a, b=b: T.Cnt(a, y) == T.Cnt(b, y),
+                                           trigger=("cnt-args", tuple(parts), tuple(units))))
 
 
 @dataclass
@@ -163,13 +174,25 @@ class Engine:
         m = {"trail": "".join(p.trail[-12:])}
         if meta:
             m.update(meta)
-        self.obligs.append(Oblig(self.oid(f"{self.cur.qualname if self.cur else 'lemma'}/{name}"),
-                                 self.cur.qualname if self.cur else "lemma", kind,
-                                 list(p.pc) + list(extra_hyps), list(p.schemas), goal, expect, m))
+        fq = (getattr(self, "cur_qual", None) or self.cur.qualname) if self.cur else "lemma"
+        grp = getattr(self, "_group", None)
+        if grp is not None and extra_hyps:
+            goal = z3.Implies(z3.And(*extra_hyps), goal)
+            extra_hyps = ()
+        self.obligs.append(Oblig(self.oid(f"{fq}/{name}"), fq, kind,
+                                 list(p.pc) + list(extra_hyps), list(p.schemas), goal, expect, m,
+                                 group=(f"{grp}:{id(p)}" if grp is not None and expect == "unsat" else None)))
 
     # ------------------------------------------------------------------ allocation
-    def freshness_schemas(self, r, S: State):
+    def freshness_schemas(self, r, S: State, container=False):
         """a newly allocated object is not referenced from anywhere in heap S (allocation model, DESIGN.md 3.3)"""
+        if container:
+            # a new list / set / dict object: the only places a container reference can be stored are the neighbor memo
+            # and dynamic attributes (the typed fields hold edgegraph objects): keep the instantiation small
+            def g2(v, d, u, f):
+                return S.read("memo_val", v, d, u, f) != r
+            return [Schema(f"fresh-memo({r})", (Ref, Int, Int, Ref), g2, trigger=("memo_val", "memo_has"))]
+
         def f1(x):
             return T.conj(T.neg(T.Mem(S.links(x), r)), T.neg(T.Mem(S.ends(x), r)), T.neg(T.Mem(S.unis(x), r)),
                           S.laws(x) != r, S.applies(x) != r, T.neg(T.Mem(S.elems(x), r)),
@@ -202,7 +225,7 @@ class Engine:
                 p.assume(T.neg(T.Mem(v.seq, r)))
             elif isinstance(v, VSeq):
                 p.assume(T.neg(T.Mem(v.term, r)))
-        p.schemas.extend(self.freshness_schemas(r, p.st))
+        p.schemas.extend(self.freshness_schemas(r, p.st, container=(kind == "container")))
         if kind == "obj":
             # a new instance has no dynamic attributes and an empty memo until someone sets them
             p.st.write_where("dyn_has", lambda a, r=r: (T.eq(a[0], r), z3.BoolVal(False)))
@@ -222,7 +245,7 @@ class Engine:
 
     def new_dict(self, p: Path, key_cname=None, name="dict"):
         r = self.alloc(p, self.ct.Other, "container", name)
-        p.st.write_where("dmem", lambda a, r=r: (T.eq(a[0], r), z3.BoolVal(False)))
+        p.st.write("dkeys", r, T.EMPTY())
         return VDict(r, key_cname)
 
     # ------------------------------------------------------------------ parameters
@@ -285,13 +308,16 @@ class Engine:
     # ------------------------------------------------------------------ verification of one function body
     def entry_path(self, qualname: str, need_body=True):
         """symbolic arguments, pre-state and contract instance for a function under contract"""
-        fi = self.repo.functions.get(qualname)
+        base_q, _, variant = qualname.partition("#")
+        fi = self.repo.functions.get(base_q)
         c = self.reg.contracts.get(qualname)
         if fi is None:
-            raise Unsupported(f"function {qualname} is under contract but missing from the tree")
+            raise Unsupported(f"function {base_q} is under contract but missing from the tree")
         if c is None:
             raise Unsupported(f"no contract for {qualname}")
         self.cur, self.cur_contract = fi, c
+        self.cur_variant = variant or None
+        self.cur_qual = qualname
         p = Path()
         p.st = State("pre")
         self.pre = p.st.copy()
@@ -363,14 +389,14 @@ class Engine:
                     q.assume(T.neg(T.Mem(v.seq, r)))
                 elif isinstance(v, VSeq):
                     q.assume(T.neg(T.Mem(v.term, r)))
-            q.schemas.extend(self.freshness_schemas(r, call_state))
+            q.schemas.extend(self.freshness_schemas(r, call_state, container=(kind == "container")))
             q.allocs.append((r, clsterm, kind))
         for l in o.loose:
             old = call_state._fs(l.fieldname)
             q.st.fields[l.fieldname] = o.post._fs(l.fieldname)
             q.st.havoc(l.fieldname)
             cur = q.st._fs(l.fieldname)
-            q.schemas.extend(l.constraint(lambda *a, cur=cur: cur.read(*a), lambda *a, old=old: old.read(*a)))
+            q.schemas.extend(l.constraint(lambda *a, cur=cur: cur.read(*a), lambda *a, old=old: old.read(*a), q.st))
         for fct in o.facts:
             q.assume(fct)
 
@@ -455,9 +481,13 @@ class Engine:
             raise Unsupported(f"{ctrl[0]} outside loop")
         tag = f"exit:{exc or 'return'}"
         for oi, o in enumerate(spec.outcomes):
+            self._group = None
             olabel = o.label or f"outcome{oi}"
             oexc = (o.exc,) if isinstance(o.exc, str) else (o.exc or ())
             matches = (o.exc is None and kind == "normal") or (o.exc is not None and kind == "raise" and any(exc_matches(exc, e_) for e_ in oexc))
+            any_exit = o.exc == "*"
+            if any_exit:
+                matches = True
             if not matches:
                 # this outcome's condition must be impossible on this path
                 self.emit(p, "exit-kind", f"{tag}/not:{olabel}", T.neg(o.cond),
@@ -467,6 +497,8 @@ class Engine:
                 continue
             q = p.copy()
             q.assume(o.cond)
+            self._gcount = getattr(self, "_gcount", 0) + 1
+            self._group = f"g{self._gcount}"
             # match allocations of the spec with those of the body
             subst = self.match_allocs(q, o, value)
             if subst is not None:
@@ -482,7 +514,12 @@ class Engine:
             def S_(t):
                 return z3.substitute(t, *subst) if subst else t
             # result
-            if o.exc is None:
+            # spec-level ghosts are identified with the ghost locals the loop invariants define ($name)
+            for (gname, gconst) in getattr(spec, "ghosts", ()):
+                gv = q.env.get("$" + gname)
+                if gv is not None and hasattr(gv, "term"):
+                    subst = subst + [(gconst, gv.term)]
+            if o.exc is None and not any_exit:
                 g = self.result_equal(q, value, o.result, S_)
                 if g is not None:
                     self.emit(q, "post", f"{tag}/{olabel}/result", g, meta={"clause": "result"})
@@ -510,10 +547,13 @@ class Engine:
             for l in o.loose:
                 old = self.pre._fs(l.fieldname)
                 cur = q.st._fs(l.fieldname)
-                for sch in l.constraint(lambda *a: cur.read(*a), lambda *a: old.read(*a)):
+                for sch in l.constraint(lambda *a: cur.read(*a), lambda *a: old.read(*a), q.st):
                     sk = tuple(T.fresh("sk", s) for s in sch.sorts)
                     self.emit(q, "frame", f"{tag}/{olabel}/loose:{l.fieldname}:{sch.name}", S_(sch.fn(*sk)),
                               meta={"clause": f"constraint {sch.name} on field {l.fieldname}"})
+
+    def _end_group(self):
+        self._group = None
 
     def match_allocs(self, q: Path, o: Outcome, value):
         """pair the spec's fresh references with allocations made on the path; returns substitution list or None"""
@@ -767,7 +807,11 @@ class Engine:
     # ---- loops ------------------------------------------------------------------
     def loop_spec(self, node) -> LoopSpec:
         ordn = self.loop_ord[id(node)]
-        ls = self.reg.loops.get((self.cur.qualname, ordn))
+        ls = None
+        if getattr(self, "cur_variant", None):
+            ls = self.reg.loops.get((f"{self.cur.qualname}#{self.cur_variant}", ordn))
+        if ls is None:
+            ls = self.reg.loops.get((self.cur.qualname, ordn))
         if ls is None:
             raise Unsupported(f"loop #{ordn} of {self.cur.qualname} (line {node.lineno}) has no invariant")
         return ls
@@ -796,6 +840,14 @@ class Engine:
 
     def check_inv(self, p: Path, inv: LoopInv, what: str, ls: LoopSpec, entry_st: State):
         """emit obligations that path p satisfies the invariant"""
+        self._gcount = getattr(self, "_gcount", 0) + 1
+        self._group = f"g{self._gcount}"
+        try:
+            self._check_inv(p, inv, what, ls, entry_st)
+        finally:
+            self._group = None
+
+    def _check_inv(self, p: Path, inv: LoopInv, what: str, ls: LoopSpec, entry_st: State):
         name = f"loop{ls.ordinal}/{what}"
         if inv.defs or inv.ground_defs:
             p = p.copy()
@@ -808,6 +860,8 @@ class Engine:
             sk = tuple(T.fresh("sk", s) for s in sch.sorts)
             self.emit(p, "loop", f"{name}/schema:{sch.name}", sch.fn(*sk), meta={"clause": f"loop invariant {sch.name}"})
         for k, v in inv.define.items():
+            if k.startswith("$"):
+                continue              # existential ghost: the invariant function supplies the witness in this phase
             cur = p.env.get(k)
             g = self.result_equal(p, cur, v, lambda t: t)
             if g is not None:
@@ -828,7 +882,7 @@ class Engine:
         for l in inv.loose:
             old = entry_st._fs(l.fieldname)
             cur = p.st._fs(l.fieldname)
-            for sch in l.constraint(lambda *a, cur=cur: cur.read(*a), lambda *a, old=old: old.read(*a)):
+            for sch in l.constraint(lambda *a, cur=cur: cur.read(*a), lambda *a, old=old: old.read(*a), p.st):
                 sk = tuple(T.fresh("sk", s_) for s_ in sch.sorts)
                 self.emit(p, "loop", f"{name}/loose:{l.fieldname}:{sch.name}", sch.fn(*sk),
                           meta={"clause": f"loop invariant: constraint {sch.name} on field {l.fieldname}"})
@@ -871,6 +925,15 @@ class Engine:
             return VRef(term, cname, "obj")
         return VRef(term, cname, "obj" if cname else "opaque")
 
+    def call_inv(self, ls: LoopSpec, phase: str, path: Path, L: LoopCtx):
+        """phase: 'entry' (check before the first iteration), 'assume' (arbitrary iteration: existential ghosts of the
+        invariant become fresh constants), 'check' (end of the body: the invariant function exhibits witnesses from the
+        path's environment), 'exit'"""
+        L.phase = phase
+        L.pghost = path.ghost
+        L.path = path
+        return ls.fn(L)
+
     def assume_inv(self, q: Path, inv: LoopInv, entry_st: State):
         q.env.update(inv.define)
         q.st = (inv.state if inv.state is not None else entry_st).copy()
@@ -878,7 +941,7 @@ class Engine:
             old = entry_st._fs(l.fieldname)
             q.st.havoc(l.fieldname)
             cur = q.st._fs(l.fieldname)
-            q.schemas.extend(l.constraint(lambda *a, cur=cur: cur.read(*a), lambda *a, old=old: old.read(*a)))
+            q.schemas.extend(l.constraint(lambda *a, cur=cur: cur.read(*a), lambda *a, old=old: old.read(*a), q.st))
         for f in inv.facts:
             q.assume(f)
         q.schemas.extend(inv.schemas)
@@ -901,7 +964,7 @@ class Engine:
             L.cur = stt
             L.items_of = a
             return L
-        self.check_inv(p, ls.fn(mk(p.env, z3.IntVal(0), p.st)), "entry", ls, entry_st)
+        self.check_inv(p, self.call_inv(ls, 'entry', p, mk(p.env, z3.IntVal(0), p.st)), "entry", ls, entry_st)
         assigned = self.assigned_names(st)
         results = []
         q = p.copy()
@@ -911,7 +974,7 @@ class Engine:
         for n in assigned:
             if n in q.env:
                 q.env[n] = self.havoc_local(n, q.env[n])
-        self.assume_inv(q, ls.fn(mk(q.env, i)), entry_st)
+        self.assume_inv(q, self.call_inv(ls, 'assume', q, mk(q.env, i)), entry_st)
         if self.feasible(q):
             item = VPyTuple([VStr(T.ad_key(a, i)), VRef(T.ad_val(a, i), None, "opaque")])
             for (r0, ctrl0) in self.assign(st.target, item, q):
@@ -920,7 +983,7 @@ class Engine:
                     continue
                 for (r, ctrl) in self.exec_block(st.body, r0):
                     if ctrl is None or ctrl[0] == "continue":
-                        self.check_inv(r, ls.fn(mk(r.env, i + 1, r.st)), "preserve", ls, entry_st)
+                        self.check_inv(r, self.call_inv(ls, 'check', r, mk(r.env, i + 1, r.st)), "preserve", ls, entry_st)
                     elif ctrl[0] == "break":
                         results.append((r, None))
                     else:
@@ -930,7 +993,7 @@ class Engine:
         for n in assigned:
             if n in e.env:
                 e.env[n] = self.havoc_local(n, e.env[n])
-        self.assume_inv(e, ls.fn(mk(e.env, T.ad_len(a))), entry_st)
+        self.assume_inv(e, self.call_inv(ls, 'exit', e, mk(e.env, T.ad_len(a))), entry_st)
         if self.feasible(e):
             results.append((e, None))
         return results
@@ -952,7 +1015,7 @@ class Engine:
             L.cur = stt
             L.n = n
             return L
-        self.check_inv(p, ls.fn(mk(p.env, z3.IntVal(0), p.st)), "entry", ls, entry_st)
+        self.check_inv(p, self.call_inv(ls, 'entry', p, mk(p.env, z3.IntVal(0), p.st)), "entry", ls, entry_st)
         assigned = self.assigned_names(st)
         results = []
         q = p.copy()
@@ -962,12 +1025,12 @@ class Engine:
         for nm in assigned:
             if nm in q.env:
                 q.env[nm] = self.havoc_local(nm, q.env[nm])
-        self.assume_inv(q, ls.fn(mk(q.env, k)), entry_st)
+        self.assume_inv(q, self.call_inv(ls, 'assume', q, mk(q.env, k)), entry_st)
         if self.feasible(q):
             self.bind_target(st.target, VInt(start + k * step), q)
             for (r, ctrl) in self.exec_block(st.body, q):
                 if ctrl is None or ctrl[0] == "continue":
-                    self.check_inv(r, ls.fn(mk(r.env, k + 1, r.st)), "preserve", ls, entry_st)
+                    self.check_inv(r, self.call_inv(ls, 'check', r, mk(r.env, k + 1, r.st)), "preserve", ls, entry_st)
                 elif ctrl[0] == "break":
                     results.append((r, None))
                 else:
@@ -977,7 +1040,7 @@ class Engine:
         for nm in assigned:
             if nm in e.env:
                 e.env[nm] = self.havoc_local(nm, e.env[nm])
-        self.assume_inv(e, ls.fn(mk(e.env, n)), entry_st)
+        self.assume_inv(e, self.call_inv(ls, 'exit', e, mk(e.env, n)), entry_st)
         if self.feasible(e):
             results.append((e, None))
         return results
@@ -1019,7 +1082,7 @@ class Engine:
             L.suffix = suffix
             return L
         # 1. invariant holds at entry (prefix = [])
-        inv0 = ls.fn(mk(p.env, T.EMPTY()))
+        inv0 = self.call_inv(ls, 'entry', p, mk(p.env, T.EMPTY()))
         self.check_inv(p, inv0, "entry", ls, entry_st)
         results = []
         assigned = self.assigned_names(st)
@@ -1032,11 +1095,12 @@ class Engine:
         q.assume(seq == T.cat(pre, T.unit(x), suf))
         # counting distributes over the split (count_append), instantiated per reference term of the query
         q.schemas.append(Schema(f"split({x})", (Ref,), lambda y, seq=seq, pre=pre, x=x, suf=suf:
-                                T.Cnt(seq, y) == T.Cnt(pre, y) + T.b2i(T.eq(x, y)) + T.Cnt(suf, y)))
+                                T.Cnt(seq, y) == T.Cnt(pre, y) + T.b2i(T.eq(x, y)) + T.Cnt(suf, y),
+                                trigger=("cnt-args", tuple(t for t in [seq, pre, suf] + T._flat(seq) if not (T._is_unit(t) or T._is_concat(t) or T._is_empty(t))), (x,))))
         for n in assigned:
             if n in q.env:
                 q.env[n] = self.havoc_local(n, q.env[n])
-        invk = ls.fn(mk(q.env, pre, elem=x, suffix=suf))
+        invk = self.call_inv(ls, 'assume', q, mk(q.env, pre, elem=x, suffix=suf))
         self.assume_inv(q, invk, entry_st)
         if not self.feasible(q):
             body_res = []
@@ -1048,7 +1112,7 @@ class Engine:
             body_res = self.exec_block(st.body, q)
         for (r, ctrl) in body_res:
             if ctrl is None or ctrl[0] == "continue":
-                inv1 = ls.fn(mk(r.env, T.snoc(pre, x), stt=r.st))
+                inv1 = self.call_inv(ls, 'check', r, mk(r.env, T.snoc(pre, x), stt=r.st))
                 self.check_inv(r, inv1, "preserve", ls, entry_st)
             elif ctrl[0] == "break":
                 results.append((r, None))
@@ -1060,7 +1124,7 @@ class Engine:
         for n in assigned:
             if n in e.env:
                 e.env[n] = self.havoc_local(n, e.env[n])
-        inve = ls.fn(mk(e.env, seq))
+        inve = self.call_inv(ls, 'exit', e, mk(e.env, seq))
         self.assume_inv(e, inve, entry_st)
         if self.feasible(e):
             results.append((e, None))
@@ -1080,7 +1144,7 @@ class Engine:
             L.entry_out = entry_out
             L.cur = stt
             return L
-        inv0 = ls.fn(mk(p.env, z3.IntVal(0), p.st))
+        inv0 = self.call_inv(ls, 'entry', p, mk(p.env, z3.IntVal(0), p.st))
         self.check_inv(p, inv0, "entry", ls, entry_st)
         assigned = self.assigned_names(st)
         q = p.copy()
@@ -1090,7 +1154,7 @@ class Engine:
         for n in assigned:
             if n in q.env:
                 q.env[n] = self.havoc_local(n, q.env[n])
-        invk = ls.fn(mk(q.env, k))
+        invk = self.call_inv(ls, 'assume', q, mk(q.env, k))
         self.assume_inv(q, invk, entry_st)
         results = []
         for (r, c) in self.eval_cond(st.test, q):
@@ -1103,7 +1167,7 @@ class Engine:
                     continue
                 for (r3, ctrl) in self.exec_block(st.body, r2):
                     if ctrl is None or ctrl[0] == "continue":
-                        inv1 = ls.fn(mk(r3.env, k + 1, r3.st))
+                        inv1 = self.call_inv(ls, 'check', r3, mk(r3.env, k + 1, r3.st))
                         self.check_inv(r3, inv1, "preserve", ls, entry_st)
                         if invk.variant is not None and inv1.variant is not None:
                             self.emit(r3, "decreases", f"loop{ls.ordinal}/variant",
